@@ -85,6 +85,9 @@ type hist struct {
 	// overlapBefore: class of the last Merge of a config overlapping its target, overlapStep: its step
 	overlapBefore string
 	overlapStep   int
+	// probeClass: set while the positions skipped by a write are asked; skipStep: the last step with such a write
+	probeClass string
+	skipStep   int
 	// list elements moved up by a prepending Merge (number of the last such step)
 	shifted map[*model.Node]int
 	// containers a Merge merged into in place (number of the last such step) / nil nodes that came from nil merged onto nil
@@ -109,6 +112,10 @@ func (h *hist) fail(sig, format string, a ...interface{}) {
 // config overlapping the target in an EARLIER step, is counted to that class
 // (the two trees may have parted there in a way the canonical form hides).
 func (h *hist) later(sig string) string {
+	if h.probeClass != "" && !strings.HasPrefix(sig, h.probeClass) {
+		// asked at a list position that a write has just skipped
+		return h.probeClass + ":" + sig
+	}
 	if h.overlapBefore == "" || h.overlapStep == h.stepNo {
 		return sig
 	}
@@ -207,7 +214,11 @@ func (check) Run(seed int64, tier string, idx int, verbose bool) harness.Result 
 		}
 	})
 	if panicked {
-		h.fail("panic", "panic %q at %s", pv, where)
+		sig := "panic"
+		if h.skipStep > 0 {
+			sig = sigSkipped + ":panic-later"
+		}
+		h.fail(sig, "panic %q at %s", pv, where)
 	}
 	if h.muts >= 3 {
 		res.Key(strings.Join(h.log, ";") + h.sep)
@@ -244,7 +255,7 @@ func (h *hist) step() {
 	// what a mutation through a child handle must show through the parent
 	var mutated, firstViaNil bool
 	var mustHave [][]model.Fld
-	op := r.Intn(14)
+	op := r.Intn(15)
 	var crossName, crossWName string // address of an empty container that got settings of the other kind in this step, and of the setting
 	var crossWIdx int
 	var crossed bool
@@ -513,6 +524,11 @@ func (h *hist) step() {
 				break
 			}
 		}
+	case op == 14: // removals on one list (or growth step by step), then a write that skips positions
+		if !h.skipWrite(t) {
+			return
+		}
+		mutated = true
 	case op == 13: // an EMPTY container of one kind receives settings of the other kind
 		cname, cfs, empty, ok := h.emptyContainer(t)
 		if !ok {
@@ -740,6 +756,118 @@ func (h *hist) sigFor(x *handle, base string) string {
 		return s
 	}
 	return h.stepClass
+}
+
+const sigSkipped = "skipped-list-position-not-a-nil-setting"
+
+// skipWrite: a list loses two or more elements (or is grown element by element
+// first), then a write lands one or more positions beyond its end; every
+// skipped position must be a nil setting (Has true, "null", counted), asked
+// through all observers right away. Returns false if nothing was done.
+func (h *hist) skipWrite(t *handle) bool {
+	r := h.r
+	if !t.n.IsSub() {
+		return false
+	}
+	name, list, ok := h.listAddr(t)
+	if !ok {
+		return false
+	}
+	fsAt := func(i int) []model.Fld { return model.ParsePath(name, i, h.sep) }
+	n := 0
+	if list != nil {
+		n = len(list.A)
+	}
+	set := func(i int, what string) bool {
+		x := int64(r.Intn(100) - 50)
+		h.log = append(h.log, fmt.Sprintf("%s.SetInt(%d)@(%q,%d) [%s]", t.desc, x, name, i, what))
+		err := t.c.SetInt(name, i, x, h.o...)
+		h.res.Eval(1)
+		ok := model.Set(t.n, fsAt(i), model.P(x))
+		if ok != (err == nil) {
+			h.fail("set-outcome", "write outcome: model ok=%v, library err=%v", ok, err)
+			return false
+		}
+		return ok
+	}
+	// grow step by step to 5..6 elements (beyond a power of two: room is left)
+	grown := 0
+	for target := 5 + r.Intn(2); n < target && (n < 3 || r.Intn(2) == 0); n++ {
+		if n > h.maxIdx || !set(n, "grow") {
+			return grown > 0 && !h.failed
+		}
+		grown++
+	}
+	// two or more removals on the same list
+	removed := 0
+	if n >= 3 && (grown == 0 || r.Intn(2) == 0) {
+		for k := 2 + r.Intn(n-2); k > 0 && n > 1; k-- {
+			i := r.Intn(n)
+			h.log = append(h.log, fmt.Sprintf("%s.Remove(%q,%d)", t.desc, name, i))
+			got, err := t.c.Remove(name, i, h.o...)
+			h.res.Eval(1)
+			want, isErr := model.Remove(t.n, fsAt(i))
+			if got != want || isErr != (err != nil) {
+				h.fail("remove-outcome", "Remove returned (%v,%v), model (%v, err=%v)", got, err, want, isErr)
+				return false
+			}
+			if !want {
+				return true
+			}
+			n--
+			removed++
+		}
+	}
+	// the write that skips 1..3 positions
+	gap := 1 + r.Intn(3)
+	idx := n + gap
+	if idx > h.maxIdx {
+		return true // (above the maximum index a jump is C07/C20's business)
+	}
+	h.skipStep = h.stepNo
+	// (a Merge never skips in the list merged into: surplus elements of the
+	// operand are appended one by one)
+	if r.Intn(2) == 0 {
+		if !set(idx, "skipping") {
+			return !h.failed
+		}
+	} else {
+		sub := smallTree(r)
+		sc, e := ucfg.NewFrom(sub.ToGo())
+		if e != nil {
+			h.fail("newfrom-error", "NewFrom(%s) failed: %v", sub, e)
+			return false
+		}
+		h.log = append(h.log, fmt.Sprintf("%s.SetChild(%s)@(%q,%d) [skipping]", t.desc, sub, name, idx))
+		err := t.c.SetChild(name, idx, sc, h.o...)
+		h.res.Eval(1)
+		if ok := model.Set(t.n, fsAt(idx), sub.Copy()); ok != (err == nil) {
+			h.fail("set-outcome", "write outcome: model ok=%v, library err=%v", ok, err)
+			return false
+		}
+	}
+	h.muts++
+	h.res.Ev("writes_skipping_list_positions:"+map[bool]string{true: "after-removals", false: "after-growth-only"}[removed > 0], 1)
+	h.res.Ev("skipped_list_positions_probed", int64(gap))
+	h.probeClass = sigSkipped
+	defer func() { h.probeClass = "" }()
+	panicked, pv, where := harness.Safe(func() {
+		for p := n; p <= idx && !h.failed; p++ {
+			h.probeAt(t, name, p, "probe-skipped-position")
+		}
+		if name != "" && !h.failed {
+			h.probeAt(t, name, -1, "probe-skipped-position")
+		}
+		if !h.failed {
+			if _, err := obs.Top(t.c); err != nil {
+				h.fail("unpack-error", "Unpack of %s failed: %v", t.desc, err)
+			}
+		}
+	})
+	if panicked {
+		h.fail("panic", "panic %q at %s", pv, where)
+	}
+	return !h.failed
 }
 
 // lenAt returns the length of the list part of the container addressed by
